@@ -217,7 +217,7 @@ def main():
           for pid in ALL if pid not in CHECKS]
     doc = {
         'version': 1,
-        'setup_cmd': 'cd lean && lake build Sourcer driver Gen Tie',
+        'setup_cmd': 'cd lean && lake build Sourcer driver Gen Tie xdriver',
         'hooks': {
             'guard': 'SOURCER_VERIF',
             'enable': 'no source hooks are needed; checks import /repo in-process and set SOURCER_VERIF=1 (unused by /repo)',
